@@ -19,6 +19,7 @@ tag = '%s_%s' % (pid, variant)
 if '--tag' in sys.argv:
     tag = sys.argv[sys.argv.index('--tag') + 1]
 check_id = sys.argv[sys.argv.index('--check-id') + 1] if '--check-id' in sys.argv else pid
+phase = sys.argv[sys.argv.index('--phase') + 1] if '--phase' in sys.argv else 'ab'   # a: scratch worktree part, b: check against /repo
 scratch = '/tmp/confirm_' + tag
 env = dict(os.environ, PYTHONHASHSEED='0', MPLBACKEND='Agg', OMP_NUM_THREADS='1', OPENBLAS_NUM_THREADS='1', MKL_NUM_THREADS='1')
 
@@ -49,102 +50,132 @@ def stable_ids():
 
 
 res = dict(property=pid, variant=variant)
-sh('git -C /repo worktree remove --force %s' % scratch)
-shutil.rmtree(scratch, ignore_errors=True)
-rc, out = sh('git -C /repo worktree add -q --detach %s HEAD' % scratch)
-assert rc == 0, out
-try:
-    wd = scratch + '_run'
-    shutil.rmtree(wd, ignore_errors=True)
-    os.makedirs(wd)
-    shutil.copy(os.path.join(vdir, 'demo.py'), wd)
-    rc0, o0 = sh('/venv/bin/python demo.py', cwd=wd, timeout=1800, extra_env={'PYTHONPATH': scratch})
-    res['demo_unchanged_rc'] = rc0
-    rc, out = sh('git apply %s' % os.path.join(vdir, 'patch.diff'), cwd=scratch)
-    res['patch_applies'] = (rc == 0)
-    if rc != 0:
-        res['patch_error'] = out[-500:]
-    rc1, o1 = sh('/venv/bin/python demo.py', cwd=wd, timeout=1800, extra_env={'PYTHONPATH': scratch})
-    res['demo_changed_rc'] = rc1
-    res['demo_changed_tail'] = o1[-600:]
-    if run_tests:
-        ids = stable_ids()
-        if '--all-tests' not in sys.argv:
-            # only the stable tests whose file mentions a touched module (the full stable set takes 10-35 min)
-            import re
-            touched = set(re.findall(r'^\+\+\+ b/(\S+)', open(os.path.join(vdir, 'patch.diff')).read(), re.M))
-            keys = set()
-            for t in touched:
-                base = os.path.basename(t)[:-3]
-                keys.add(base)
-                keys.add(t[:-3].replace('/', '.'))
-            extra = {'samplers': ['Rejection', 'SMC', 'elfi.Rejection'], 'parameter_inference': ['Rejection', 'BOLFI', 'BayesianOptimization', 'SMC'],
-                     'client': ['Rejection', 'BatchHandler', 'generate('], 'executor': ['generate('], 'compiler': ['generate('], 'loader': ['generate('],
-                     'elfi_model': ['elfi.'], 'graphical_model': ['elfi.'], 'utils': ['elfi.'], 'store': ['Pool', 'store'],
-                     'acquisition': ['acquisition', 'BOLFI', 'BayesianOptimization'], 'bolfi': ['BOLFI', 'BayesianOptimization'],
-                     'gpy_regression': ['GPyRegression', 'BOLFI', 'BayesianOptimization'], 'posteriors': ['BOLFI', 'Posterior', 'romc'],
-                     'mcmc': ['mcmc', 'BOLFI'], 'results': ['Sample', 'results'], 'extensions': ['ModelPrior', 'SMC', 'BOLFI'],
-                     'augmenter': ['ModelPrior', 'augmenter'], 'tools': ['tools', 'vectorize'], 'romc': ['romc', 'ROMC'], 'bsl': ['bsl', 'BSL'],
-                     'pdf_methods': ['pdf_methods', 'syn_likelihood'], 'post_processing': ['post_processing', 'adjust'],
-                     'model_selection': ['compare_models']}
-            for k in list(keys):
-                keys.update(extra.get(k, []))
-            sel = []
-            cache = {}
-            for i in ids:
-                fpath = os.path.join(scratch, i.split('::')[0])
-                if fpath not in cache:
-                    try:
-                        cache[fpath] = open(fpath).read()
-                    except OSError:
-                        cache[fpath] = ''
-                if any(k in cache[fpath] for k in keys):
-                    sel.append(i)
-            res['stable_tests_selected'] = len(sel)
-            ids = sel or ids[:5]
-        t0 = time.time()
+dst = os.path.join(VERIF, 'seeded', tag)
+if 'a' not in phase:
+    try:
+        res = json.load(open(os.path.join(dst, 'meta.json')))['confirmation']
+    except Exception:
+        pass
 
-        def run_ids(idl):
-            rc_, out_ = sh('/venv/bin/python -m pytest -q -p no:cacheprovider --timeout=900 -rf ' + ' '.join("'%s'" % i for i in idl) + ' 2>&1 | tail -40',
-                           cwd=scratch, timeout=7200)
-            import re as _re
-            failed = _re.findall(r'^(?:FAILED|ERROR) (\S+)', out_, _re.M)
-            ok_ = (' passed' in out_ and ' failed' not in out_ and ' error' not in out_.lower().replace('errors', 'error'))
-            return ok_, failed, out_
-        ok_t, failed, out = run_ids(ids)
-        res['stable_tests_tail'] = out[-400:]
-        reruns = 0
-        # a test that fails is re-run alone (twice at most): tests with unseeded randomness (e.g.
-        # test_utils.py::test_minimize_with_constraints) fail now and then on the unchanged tree too
-        while not ok_t and failed and reruns < 2:
-            reruns += 1
-            res.setdefault('rerun_failed', []).append(failed)
-            ok_t, failed, out2 = run_ids(failed)
-            res['stable_tests_rerun_tail'] = out2[-300:]
-        res['stable_tests_wall_s'] = round(time.time() - t0)
-        res['stable_tests_pass'] = bool(ok_t)
-    shutil.rmtree(wd, ignore_errors=True)
-finally:
+
+def part_a():
     sh('git -C /repo worktree remove --force %s' % scratch)
     shutil.rmtree(scratch, ignore_errors=True)
+    rc, out = sh('git -C /repo worktree add -q --detach %s HEAD' % scratch)
+    assert rc == 0, out
+    try:
+        wd = scratch + '_run'
+        shutil.rmtree(wd, ignore_errors=True)
+        os.makedirs(wd)
+        shutil.copy(os.path.join(vdir, 'demo.py'), wd)
+        rc0, o0 = sh('/venv/bin/python demo.py', cwd=wd, timeout=1800, extra_env={'PYTHONPATH': scratch})
+        res['demo_unchanged_rc'] = rc0
+        rc, out = sh('git apply %s' % os.path.join(vdir, 'patch.diff'), cwd=scratch)
+        res['patch_applies'] = (rc == 0)
+        if rc != 0:
+            res['patch_error'] = out[-500:]
+        rc1, o1 = sh('/venv/bin/python demo.py', cwd=wd, timeout=1800, extra_env={'PYTHONPATH': scratch})
+        res['demo_changed_rc'] = rc1
+        res['demo_changed_tail'] = o1[-600:]
+        if run_tests:
+            ids = stable_ids()
+            if '--all-tests' not in sys.argv:
+                # only the stable tests whose file mentions a touched module (the full stable set takes 10-35 min)
+                import re
+                touched = set(re.findall(r'^\+\+\+ b/(\S+)', open(os.path.join(vdir, 'patch.diff')).read(), re.M))
+                keys = set()
+                for t in touched:
+                    base = os.path.basename(t)[:-3]
+                    keys.add(base)
+                    keys.add(t[:-3].replace('/', '.'))
+                extra = {'samplers': ['Rejection', 'SMC', 'elfi.Rejection'], 'parameter_inference': ['Rejection', 'BOLFI', 'BayesianOptimization', 'SMC'],
+                         'client': ['Rejection', 'BatchHandler', 'generate('], 'executor': ['generate('], 'compiler': ['generate('], 'loader': ['generate('],
+                         'elfi_model': ['elfi.'], 'graphical_model': ['elfi.'], 'utils': ['elfi.'], 'store': ['Pool', 'store'],
+                         'acquisition': ['acquisition', 'BOLFI', 'BayesianOptimization'], 'bolfi': ['BOLFI', 'BayesianOptimization'],
+                         'gpy_regression': ['GPyRegression', 'BOLFI', 'BayesianOptimization'], 'posteriors': ['BOLFI', 'Posterior', 'romc'],
+                         'mcmc': ['mcmc', 'BOLFI'], 'results': ['Sample', 'results'], 'extensions': ['ModelPrior', 'SMC', 'BOLFI'],
+                         'augmenter': ['ModelPrior', 'augmenter'], 'tools': ['tools', 'vectorize'], 'romc': ['romc', 'ROMC'], 'bsl': ['bsl', 'BSL'],
+                         'pdf_methods': ['pdf_methods', 'syn_likelihood'], 'post_processing': ['post_processing', 'adjust'],
+                         'model_selection': ['compare_models']}
+                for k in list(keys):
+                    keys.update(extra.get(k, []))
+                sel = []
+                cache = {}
+                for i in ids:
+                    fpath = os.path.join(scratch, i.split('::')[0])
+                    if fpath not in cache:
+                        try:
+                            cache[fpath] = open(fpath).read()
+                        except OSError:
+                            cache[fpath] = ''
+                    if any(k in cache[fpath] for k in keys):
+                        sel.append(i)
+                res['stable_tests_selected'] = len(sel)
+                ids = sel or ids[:5]
+            t0 = time.time()
 
-# run the property check against the change in /repo itself
-rc, out = sh('git -C /repo status --porcelain --untracked-files=no')
-assert out.strip() == '', 'repo not clean: ' + out
-rc, out = sh('git -C /repo apply %s' % os.path.join(vdir, 'patch.diff'))
-assert rc == 0, out
-try:
-    t0 = time.time()
-    rc, out = sh('VERIF_SEEDTEST=1 ./check %s' % check_id, cwd=VERIF, timeout=3600)
-    res['check_id'] = check_id
-    res['check_rc'] = rc
-    res['check_wall_s'] = round(time.time() - t0)
-    res['check_violation_lines'] = [l for l in out.split('\n') if l.startswith('VIOLATION')][:5]
-    res['check_tail'] = out[-800:]
-finally:
-    sh('git -C /repo checkout -- .')
-res['detected'] = (res.get('check_rc') == 1 and bool(res['check_violation_lines']))
-res['concrete_replay'] = any('no-failing-input-found' not in l for l in res['check_violation_lines'])
+            def run_ids(idl):
+                rc_, out_ = sh('/venv/bin/python -m pytest -q -p no:cacheprovider --timeout=900 -rf ' + ' '.join("'%s'" % i for i in idl) + ' 2>&1 | tail -40',
+                               cwd=scratch, timeout=7200)
+                import re as _re
+                failed = _re.findall(r'^(?:FAILED|ERROR) (\S+)', out_, _re.M)
+                ok_ = (' passed' in out_ and ' failed' not in out_ and ' error' not in out_.lower().replace('errors', 'error'))
+                return ok_, failed, out_
+            ok_t, failed, out = run_ids(ids)
+            res['stable_tests_tail'] = out[-400:]
+            reruns = 0
+            # a test that fails is re-run alone (twice at most): tests with unseeded randomness (e.g.
+            # test_utils.py::test_minimize_with_constraints) fail now and then on the unchanged tree too
+            while not ok_t and failed and reruns < 2:
+                reruns += 1
+                res.setdefault('rerun_failed', []).append(failed)
+                ok_t, failed, out2 = run_ids(failed)
+                res['stable_tests_rerun_tail'] = out2[-300:]
+            res['stable_tests_wall_s'] = round(time.time() - t0)
+            res['stable_tests_pass'] = bool(ok_t)
+        shutil.rmtree(wd, ignore_errors=True)
+    finally:
+        sh('git -C /repo worktree remove --force %s' % scratch)
+        shutil.rmtree(scratch, ignore_errors=True)
+
+
+
+if 'a' in phase:
+    part_a()
+
+def part_b():
+    # run the property check against the change in /repo itself
+    rc, out = sh('git -C /repo status --porcelain --untracked-files=no')
+    assert out.strip() == '', 'repo not clean: ' + out
+    rc, out = sh('git -C /repo apply %s' % os.path.join(vdir, 'patch.diff'))
+    assert rc == 0, out
+    try:
+        t0 = time.time()
+        rc, out = sh('VERIF_SEEDTEST=1 ./check %s' % check_id, cwd=VERIF, timeout=3600)
+        res['check_id'] = check_id
+        res['check_rc'] = rc
+        res['check_wall_s'] = round(time.time() - t0)
+        res['check_violation_lines'] = [l for l in out.split('\n') if l.startswith('VIOLATION')][:5]
+        res['check_tail'] = out[-800:]
+    finally:
+        sh('git -C /repo checkout -- .')
+    res['detected'] = (res.get('check_rc') == 1 and bool(res['check_violation_lines']))
+    # which clause caught it: kind + detail of the first replays
+    caught = []
+    for l in res['check_violation_lines'][:3]:
+        try:
+            rp = l.split('replay=')[1].split()[0]
+            rj = json.load(open(rp))
+            caught.append('%s: %s' % (rj.get('kind'), str(rj.get('detail') or rj.get('broken'))[:240]))
+        except Exception as e:
+            caught.append('replay unreadable: %s' % e)
+    res['caught_by'] = caught
+    res['concrete_replay'] = any('no-failing-input-found' not in l for l in res['check_violation_lines'])
+
+
+
+if 'b' in phase:
+    part_b()
 
 dst = os.path.join(VERIF, 'seeded', tag)
 os.makedirs(dst, exist_ok=True)
